@@ -376,6 +376,54 @@ func checkC16(c c16Case, r *vcore.Rec) *vcore.Failure {
 			firstKnown = known2
 		}
 	}
+	// a pod event handled in the middle of a periodic full synchronisation (the informer's handler goroutine and the sync loop are
+	// different goroutines): a new local pod appears and its update event is handled while the pass is between two of its
+	// iptables-save snapshots; once the pass is over the rules must enforce the policies for that pod as well
+	if firstKnown == nil {
+		for _, np := range c.Then.Pods {
+			isNew := np.Local && np.IP != ""
+			for _, op := range c.Cluster.Pods {
+				if op.Ns == np.Ns && op.Name == np.Name || op.IP == np.IP {
+					isNew = false
+				}
+			}
+			if !isNew {
+				continue
+			}
+			with := c.Cluster
+			with.Pods = append(append([]PodT{}, c.Cluster.Pods...), np)
+			// the pass takes several snapshots: the event is placed before each of them in turn
+			for at := 1; at <= 6; at++ {
+				sets2 := nf.NewIPSet()
+				ipt2 := nf.NewIPTables(sets2)
+				s2 := NewSim(ipt2, sets2)
+				s2.Load(c.Cluster)
+				s2.PM.Run()
+				fired := 0
+				ipt2.BeforeSave = func() {
+					fired++
+					if fired == at {
+						s2.Load(with)
+						_ = s2.PM.UpdatePod(np.toK8s(), np.toK8s())
+					}
+				}
+				s2.PM.Run()
+				ipt2.BeforeSave = nil
+				if fired < at {
+					break
+				}
+				r.Class("pod_event_during_full_sync")
+				known3, f := judgeC16(&with, ipt2, sets2, r, fmt.Sprintf("after a pod event that arrived during a full sync (before its snapshot #%d)", at), &c.Cluster)
+				if f != nil {
+					return f
+				}
+				if firstKnown == nil {
+					firstKnown = known3
+				}
+			}
+			break
+		}
+	}
 	if firstKnown != nil {
 		return firstKnown
 	}
